@@ -344,6 +344,8 @@ func (so *Sorts) prelude(body string) string {
 (declare-fun hv_root (Int) Int)
 (declare-fun hv_offs (Int) Int)
 (declare-fun hv_rtype (Int) Int)
+(declare-fun hv_globals () Int)
+(assert (and (> hv_globals 0) (> (hv_base hv_globals) 0)))
 (assert (= (hv_kind 0) 0))
 (assert (= (hv_base 0) 0))
 (define-fun hv_div ((x Int) (y Int)) Int (ite (>= x 0) (ite (> y 0) (div x y) (- (div x (- y)))) (ite (> y 0) (- (div (- x) y)) (div (- x) (- y)))))
